@@ -132,7 +132,7 @@ let pkind_s = function
   | PE_UnknownToken -> "UnknownToken"
   | PE_UnsupportedStatement k -> "UnsupportedStatement:" ^ tk_s k
   | PE_ExpectedNumber k -> "ExpectedNumber:" ^ tk_s k
-  | PE_NumberParseError -> "NumberParseError"
+  | PE_NumberParseError -> "NumberParseError:PosOverflow"
   | PE_TooManyBits -> "TooManyBits"
   | PE_ExpectedNewLine -> "ExpectedNewLine"
   | PE_ExpectedCXZ _ -> "ExpectedCXZ"
